@@ -241,7 +241,7 @@ func VH_P_Search() {
 	}
 	full := len(r.Promises) == limit
 	vx.Assert((r.Cursor != nil) == full, "C14:cursor-exactly-when-page-full")
-	if r.Cursor != nil {
+	if r.Cursor != nil && len(r.Promises) > 0 {
 		vx.Reach("cursor")
 		n := r.Cursor.Next
 		last := r.Promises[len(r.Promises)-1]
